@@ -396,9 +396,16 @@ impl<T> DataReaderEntity<T> {
                 else {
                     return Ok(AddChangeResult::NotAdded);
                 };
+                // Between writers of equal strength the one with the lowest GUID owns the instance,
+                // so that the choice does not depend on the order of arrival
                 if &instance_owner.owner_handle != instance_writer.as_ref()
-                    && sample_writer.ownership_strength().value
-                        <= sample_owner.ownership_strength().value
+                    && (
+                        sample_writer.ownership_strength().value,
+                        core::cmp::Reverse(sample_writer.key().value),
+                    ) <= (
+                        sample_owner.ownership_strength().value,
+                        core::cmp::Reverse(sample_owner.key().value),
+                    )
                 {
                     // The ignored change only tells whether its writer has the instance registered
                     if let Some(instance) = self
